@@ -25,6 +25,69 @@ SS = 'base::space::StateSpace'
 EPS = 1e-15
 
 
+def _domain(ctx):
+    """C10.domain: every acos / asin evaluated by a state space is reached only with an argument known to be at most 1 - the
+    dot product of two unit quaternions rounds above 1 for about one unit quaternion in five when both arguments are the same
+    rotation, and acos of that is NaN: every weight computed from it is NaN and so is the interpolated state (at t = 0 and
+    t = 1 too).  Accepted: a comparison of exactly this value with a constant <= 1 whose accepting edge dominates the call, or
+    a `min(c)` / `clamp(.., c)` with c <= 1 applied to it.  The lower side (>= -1) is decided the same way where a fact exists
+    and is otherwise left undecided (the absolute value written as `dot * sign(dot)` is not an ordering fact)."""
+    from .c12 import cmp_facts, const_float, same, space_adts
+    from ..engine import fmt_terms, strip_clone
+    r = RuleResult('C10.domain', 'inverse trigonometric functions in the state spaces are applied to arguments known to be at most 1 (no NaN angle)')
+    n = 0
+    for b in sorted(ctx.lib_bodies(), key=lambda x: x.path):
+        if not b.path.startswith('base::spaces::') and not (b.j.get('impl_adt') or '').startswith('base::spaces::') and \
+                '<base::spaces::' not in b.path:
+            continue
+        fn = None
+        for bi, t in b.calls():
+            p = t['func'].get('path') or ''
+            name = p.rsplit('::', 1)[-1]
+            if name not in ('acos', 'asin') or 'f64' not in p or not t['args']:
+                continue
+            fn = fn or ctx.fn(b)
+            n += 1
+            arg = strip_clone(fn.arg_terms(t, 0, bi))
+            upper = False
+            lower = None
+            if len(arg) == 1:
+                q = next(iter(arg))
+                if q[0] == 'call' and q[1].rsplit('::', 1)[-1] in ('min', 'clamp') and 'f64' in q[1]:
+                    c = const_float(q[2][-1])
+                    if c is not None and c <= 1.0:
+                        upper = True
+                    if q[1].endswith('clamp') and const_float(q[2][1]) is not None and const_float(q[2][1]) >= -1.0:
+                        lower = True
+                if q[0] == 'call' and q[1].rsplit('::', 1)[-1] == 'abs':
+                    lower = True
+            for (a, b_, rel, _blk) in cmp_facts(fn, bi):
+                if same(a, arg) and const_float(b_) is not None:
+                    c = const_float(b_)
+                    if c <= 1.0 and rel <= {'lt', 'eq', 'un'}:
+                        upper = True
+                    if c >= -1.0 and rel <= {'gt', 'eq', 'un'}:
+                        lower = True
+                elif same(b_, arg) and const_float(a) is not None:
+                    c = const_float(a)
+                    if c <= 1.0 and rel <= {'gt', 'eq', 'un'}:
+                        upper = True
+                    if c >= -1.0 and rel <= {'lt', 'eq', 'un'}:
+                        lower = True
+            r.inst('%s: %s(%s) at %s: argument at most 1' % (b.path, name, fmt_terms(arg)[:50], b.loc(bi)), ok=upper, site=b.loc(bi))
+            if not upper:
+                r.violations.append(Violation(
+                    'C10', 'C10.domain', b.path, name,
+                    '%s is applied to %s without a dominating test or clamp that keeps it at most 1: the dot product of two unit '
+                    'quaternions that are the same rotation rounds above 1 for many inputs, %s of that is NaN and every value computed '
+                    'from it (the interpolated state, also at t = 0 and t = 1) is NaN' % (name, fmt_terms(arg)[:60], name), loc=b.loc(bi)))
+            r.inst('%s: %s at %s: argument at least -1%s' % (b.path, name, b.loc(bi), '' if lower else ': undecided'), ok=True,
+                   nontrivial=bool(lower), site=b.loc(bi))
+    if n < 2:
+        r.violations.append(Violation('C10', 'C10.domain', 'oxmpl', 'floor', 'only %d acos/asin calls found in the state spaces (floor 2: SO(3) distance and interpolate)' % n))
+    return r
+
+
 def run(ctx, tier):
     r = RuleResult('C10.canon', 'interpolated / constructed SO(2) angles lie in [-pi, pi] and are never NaN (finite inputs)')
     it = Interp(ctx, ctx.core)
@@ -96,7 +159,7 @@ def run(ctx, tier):
             r2.violations.append(Violation('C10', 'C10.arc', b.path, 'difference', pr, loc=b.loc(0), ordinal=o))
     if m < 1:
         r2.violations.append(Violation('C10', 'C10.arc', 'oxmpl', 'floor', 'no SO(2) interpolation found (floor 1)'))
-    return [r, r2, _repr(ctx)] + _algebra_safe(ctx)
+    return [r, r2, _repr(ctx), _domain(ctx)] + _algebra_safe(ctx)
 
 
 def _repr(ctx):
